@@ -1293,6 +1293,9 @@ def _make_pianoroll(
     # Determine the non-zero indices of the piano roll
     if onset_only:
         _idx_fill = np.column_stack([pr_pitch, pr_onset, pr_velocity])
+        # only the onset frame is filled (the indices returned for each note
+        # designate the cells of that note)
+        pr_offset = pr_onset + 1
     else:
         pr_offset = np.maximum(pr_onset + 1, pr_offset - (1 if note_separation else 0))
         _idx_fill = np.vstack(
